@@ -2560,9 +2560,13 @@ uint32_t NifFile::GetShapeBoneWeights(NiShape* shape,
 		return 0;
 
 	NiSkinData::BoneData* bone = &skinData->bones[boneIndex];
-	for (auto& sw : bone->vertexWeights)
-		if (sw.weight >= EPSILON)
-			outWeights.emplace(sw.index, sw.weight);
+	for (auto& sw : bone->vertexWeights) {
+		// SkinWeight is packed: copy the members instead of binding references to them
+		const uint16_t index = sw.index;
+		const float weight = sw.weight;
+		if (weight >= EPSILON)
+			outWeights.emplace(index, weight);
+	}
 
 	return static_cast<uint32_t>(outWeights.size());
 }
